@@ -10,6 +10,11 @@ VARIANTS = {
     "asan": {"cxx": "g++", "flags": COMMON + ["-O1", "-g", "-fno-omit-frame-pointer",
                                               "-fsanitize=address,undefined", "-fno-sanitize-recover=all"]},
     "plain": {"cxx": "g++", "flags": COMMON + ["-O2"]},
+    # hooked build for the schedule explorer: std::mutex / std::atomic in cctz TUs announce themselves to the scheduler
+    "sched": {"cxx": "g++", "flags": COMMON + ["-O1", "-g", "-fno-omit-frame-pointer", "-fsanitize=address,undefined", "-fno-sanitize-recover=all",
+                                               "-DCCTZ_VERIF_SCHED", "-I" + os.path.join(VERIF, "src", "sched"), "-include", os.path.join(VERIF, "src", "sched", "hook.h")],
+              "deps": [os.path.join(VERIF, "src", "sched", "hook.h"), os.path.join(VERIF, "src", "sched", "vp.h")]},
+    "tsan": {"cxx": "g++", "flags": COMMON + ["-O1", "-g", "-fsanitize=thread"]},
 }
 
 RUN_ENV = {
@@ -23,11 +28,13 @@ HARNESSES = {
     "zone_conf_fast": {"srcs": ["src/harness/zone_conf.cc"], "variant": "plain"},
 }
 
+HARNESSES["sched_explore"] = {"srcs": ["src/harness/sched_explore.cc", "src/sched/vsched.cc"], "variant": "sched", "strip_hook": True,
+                              "flags": ["-I" + os.path.join(VERIF, "src", "sched")]}
 HARNESSES["fixed_posix"] = {"srcs": ["src/harness/fixed_posix.cc"], "variant": "asan"}
 HARNESSES["civil_conf"] = {"srcs": ["src/harness/civil_conf.cc"], "variant": "asan"}
 
-SETUP_VARIANTS = ["asan", "plain"]
-SETUP_HARNESSES = ["zone_conf", "civil_conf", "fixed_posix"]
+SETUP_VARIANTS = ["asan", "plain", "sched"]
+SETUP_HARNESSES = ["zone_conf", "civil_conf", "fixed_posix", "sched_explore"]
 
 E1_LEVEL_NOTE = ("Trusted base: the reference model in /verif/src/common (128-bit calendar, RFC 9636 TZif reader, "
                  "POSIX TZ evaluator - written from the specifications, self-checked by a brute-force day walk), "
@@ -155,6 +162,39 @@ CHECKS["C16"] = mk_simple("C16", "fixed_posix", "POSIX TZ strings",
     "Accept/reject must agree with the reference recogniser; on acceptance every meaningful field must equal the reference and be independent of the pre-fill; end to end an invalid footer must make the load fail (leaving UTC) and a valid well-formed one must load and follow the rule.",
     ["C16:sentence:accept-dst", "C16:sentence:accept-std", "C16:sentence:reject", "C16:replace:reject", "C16:delete:accept-dst", "C16:allstrings:accept-std", "C16:e2e:dst", "C16:e2e:reject"],
     "Trusted base: ref_posix.h recursive-descent recogniser written from the grammar in the property statement / time_zone_posix.h.", min_eval=500000)
+
+
+E3_NOTE = ("Trusted base: the scheduler in src/sched (serialises real pthreads; scheduling points = every std::mutex lock/unlock and std::atomic load/store "
+           "spelled in cctz's sources, the C++ static-initialisation guards, the harness's factory entry/exit and first Read()). Interleavings are sequentially "
+           "consistent at that granularity: accesses between two points execute atomically, which is exact only for data-race-free code - the separate free-running "
+           "ThreadSanitizer pass of the same thread bodies looks for unsynchronised accesses. Bounds: preemption bound per harness as listed in the evidence; "
+           "coarse harnesses (4 threads) explore ALL interleavings at lock/factory/thread-end granularity with trace-state pruning.")
+
+
+def mk_sched(pid, title, text, need):
+    def vac(res, tier):
+        missing = [c for c in need if not any(k.startswith(c) for k in res["classes"])]
+        if missing:
+            return "behaviour classes never hit: " + ", ".join(missing)
+        if res["counters"].get("evaluations", 0) < 1000:
+            return "too few schedules explored"
+        return None
+    return {
+        "title": title, "steps": [{"harness": "sched_explore", "args": []}], "level": "model_checking", "engine": "E3",
+        "technique": "stateless model checking of the implementation: exhaustive preemption-bounded schedule exploration under a controlled scheduler (iterative context bounding), plus exhaustive trace-state-pruned exploration at critical-section granularity for 4 threads",
+        "rule": "harnesses H1-H7 (2-3 threads, 1-4 operations each: racing first loads of one name, crossing orders on two names, failing loads, fixed/UTC names, loads mixed with lookups on the shared zone, lookups on a pre-loaded zone): every schedule with at most 3 (quick) / 5 (thorough) preemptions (H7: 2 / 3), points at every lock, unlock, atomic load/store, static guard, factory entry/exit and first Read; harnesses H8-* (4 threads, one load each): all interleavings at lock/factory/thread-end granularity, pruned by trace-equivalence state hash; every complete execution is judged; distinct_nontrivial = number of (harness, preemption count) classes and distinct observation vectors seen",
+        "design_ref": "DESIGN.md 3/" + pid, "text": text, "level_note": E3_NOTE,
+        "assumptions": ["sequential consistency at scheduling-point granularity (relaxed atomics: two independent words, see DESIGN.md C13 memory-order scope)", "every execution starts from an emptied name cache (ClearTimeZoneMapTestOnly) with warm function-local statics"],
+        "vacuity": vac, "budget": {"quick": 300, "thorough": 3000},
+    }
+
+
+CHECKS["C13"] = mk_sched("C13", "concurrent loading and use is schedule-independent",
+    "Every explored schedule is a real execution of the library: no deadlock, all time_zone values for one name compare equal (also with a later sequential re-load), distinct names never share an identity, and every return value / lookup / transition / format / parse result equals the single-threaded run of the same operations.",
+    ["C13:H1:preemptions=1", "C13:H1:preemptions=3", "C13:H3", "C13:H6", "C13:H8-AAAA:coarse"])
+CHECKS["C20"] = mk_sched("C20", "custom factory: once per name, serially, on the caller's thread",
+    "Same exploration as C13; the verdict is the predicate over the factory log of each execution (thread id = calling thread; at most one invocation per name including later repeats; no two invocations overlapping - the factory yields while inside; never for UTC / fixed-offset names).",
+    ["C13:H1:preemptions=1", "C13:H2", "C13:H4", "C13:H5", "C13:H8-AABX:coarse"])
 
 # C10 always runs in the sanitizer build: the sanitizer is its oracle.
 CHECKS["C10"]["steps"] = lambda tier: [{"harness": "zone_conf", "args": []}]
